@@ -48,6 +48,37 @@ def _contains(root, node):
     return any(n is node for n in ast.walk(root))
 
 
+def notification_data_rule(tab, rep, rule, consequence=None):
+    """The Data handed to every send_notification in the reaction table is a byte string."""
+    consequence = consequence or ('Notification.construct raises TypeError inside the FSM handler, so no NOTIFICATION is '
+                                  'written and the error close does not happen')
+    from ..values import BytesV as _BytesV
+    seen_i = {}
+    ndata = 0
+    for (ev, state), rows in sorted(tab.rows.items()):
+        for r in rows:
+            for e in r.events:
+                if e[0] != 'enter_send' or e[1] != 'send_notification':
+                    continue
+                args, kw = e[2], e[3]
+                d = kw.get('data', args[2] if len(args) > 2 else None)
+                ndata += 1
+                ok_ = d is None or isinstance(d, _BytesV) or (isinstance(d, Const) and isinstance(d.value, bytes)) or \
+                    (isinstance(d, Opaque) and (d.kind == 'bytes' or d.d == 'data'))
+                name = 'notification-data:%s@%s' % (ev if ev != 'WIRE' else 'WIRE:' + r.wire['cls'], state)
+                if ok_:
+                    continue
+                if seen_i.get(name) != 'bad':
+                    seen_i[name] = 'bad'
+                    rep.bad(rule, name, file=PROTO, line=common.row_line(r), func=common.row_func(r),
+                            found='the Data handed to send_notification is %s, not a byte string: '
+                                  '%s' % (d.desc() if hasattr(d, 'desc') else d, consequence),
+                            expected='bytes', key=name, path=r.describe())
+    if not seen_i:
+        rep.ok(rule, 'notification-data', found='%d NOTIFICATION sends, data is bytes in all' % ndata)
+    rep.floor(rule, 'NOTIFICATION sends', ndata, 500)
+
+
 def check(prog, rep, tier):
     rep.rule('R10.a', 'funnel: every decoder / per-message handler call in parse_buffer, and the FSM call in '
                       'connectionMade / connectionLost / clientConnectionFailed, lies inside a try whose '
@@ -235,32 +266,7 @@ def check(prog, rep, tier):
         rep.ok('R10.j', 'report-in-except', file=pbf.file, line=pbf.node.lineno, found='%d except clauses' % nh_)
 
     # ---------------------------------------------------------------- R10.i
-    from ..values import BytesV as _BytesV
-    seen_i = {}
-    ndata = 0
-    for (ev, state), rows in sorted(tab.rows.items()):
-        for r in rows:
-            for e in r.events:
-                if e[0] != 'enter_send' or e[1] != 'send_notification':
-                    continue
-                args, kw = e[2], e[3]
-                d = kw.get('data', args[2] if len(args) > 2 else None)
-                ndata += 1
-                ok_ = d is None or isinstance(d, _BytesV) or (isinstance(d, Const) and isinstance(d.value, bytes)) or \
-                    (isinstance(d, Opaque) and (d.kind == 'bytes' or d.d == 'data'))
-                name = 'notification-data:%s@%s' % (ev if ev != 'WIRE' else 'WIRE:' + r.wire['cls'], state)
-                if ok_:
-                    continue
-                if seen_i.get(name) != 'bad':
-                    seen_i[name] = 'bad'
-                    rep.bad('R10.i', name, file=PROTO, line=common.row_line(r), func=common.row_func(r),
-                            found='the Data handed to send_notification is %s, not a byte string: Notification.construct '
-                                  'raises TypeError inside the FSM handler, so no NOTIFICATION is written and the error '
-                                  'close does not happen' % (d.desc() if hasattr(d, 'desc') else d),
-                            expected='bytes', key=name, path=r.describe())
-    if not seen_i:
-        rep.ok('R10.i', 'notification-data', found='%d NOTIFICATION sends, data is bytes in all' % ndata)
-    rep.floor('R10.i', 'NOTIFICATION sends', ndata, 500)
+    notification_data_rule(tab, rep, 'R10.i')
 
     # ---------------------------------------------------------------- R10.h
     from .. import profile as P
